@@ -6,6 +6,9 @@ T = {
  "C06": ("exploration", "E1+LPC+E2", "bounded exhaustive enumeration of shapes against the reference, affine-basis enumeration under the linearised permutation, and exhaustive enumeration of all key-object operation sequences up to depth 4/5 on the real code",
          "Every shape up to the bound for the 6 SIV/ISAP algorithms on 5 backends equals the reference; every operation history up to the depth over an original and a saved+loaded ISAP key keeps the key objects bit-identical and all results equal to the reference.",
          "SIV semantics as pinned by KAT + code (permute-then-squeeze); ISAP reference bound to KAT."),
+ "C07": ("model_checking", "E2", "explicit-state breadth-first search over the real objects: state = replayable operation history keyed by canonical observable state; every absorb/squeeze/process chunk length 0..2r+1, in-place, copy and re-init edge from every state; oracle on every edge",
+         "All reachable states of each of 24 incremental interfaces up to the stated input/output totals are enumerated on 5 backends; because histories that reach the same canonical state merge, the edge set covers every partition of input and output, not a sample.",
+         "Soundness of merging rests on the canonical key containing every field later calls read; replay determinism asserted for every state; absorb-after-squeeze excluded (not in the property)."),
  "C02": ("exploration", "E1", "bounded exhaustive enumeration of forgeries: every single-bit flip of every ciphertext/tag/AD/nonce/key byte, every tag-byte XOR value, every truncation and extension, per length shape and family, on the real code",
          "For each of the 15 AEAD families and each enumerated shape, the round trip and every member of the stated forgery classes is executed; each forgery must be rejected and (one-shot families) leave an all-zero plaintext buffer.",
          "2^-128 tag collisions excluded; value patterns {counting, dense}; lengths up to the stated bound."),
@@ -18,6 +21,8 @@ T = {
 }
 NA = {}
 ENGINES = [
+ dict(name="E2", path="harness/c07.c", serves_properties=["C07", "C13", "C14", "C15", "C20"],
+      kind_free_text="explicit-state search on the implementation: BFS over operation histories replayed on fresh real objects, states merged by canonical observable key"),
  dict(name="E1", path="harness/", serves_properties=["C01", "C02", "C03", "C04", "C05", "C06", "C08", "C10"],
       kind_free_text="bounded exhaustive shape x pattern enumeration of the real code against the reference model in ref/"),
  dict(name="LPC", path="harness/lpc.h", serves_properties=["C01", "C04", "C06"],
